@@ -91,8 +91,9 @@ def run(tier, seed):
                 if ok(p, [k]):
                     variants.append((p, [k]))
             if p in tops:
-                variants.append((p, ["resetall"]))
-                variants.append((p, ["nl", "resetall", "nl"]))
+                for run_ in (["resetall"], ["nl", "resetall", "nl"]):
+                    if ok(p, run_):
+                        variants.append((p, run_))
         for _ in range(10 if quick else 30):
             p = rng.randrange(n)
             run_ = [rng.choice(NEUTRAL) for _ in range(rng.randint(2, 5))]
